@@ -8,6 +8,16 @@ BASELINE = ("cd /repo && cargo nextest run --workspace --no-fail-fast --tool-con
 
 # id -> (engine, category, technique, level text, level note, design ref)
 CHECKS = {
+ "C16": ("mc-sem", "model_checking",
+         "exhaustive input/history enumeration re-executed under an enumerated set of process hash seeds (LD_PRELOAD getrandom shim, single-threaded workers) and independent in-process rebuilds; SHA-256 equality",
+         "Inputs: every state of bounded E1 explorations over the C06, C03 and C02 universes, histories that define base types after their dependants and create many same-rank nodes, every .wac file of the repository's test and example directories (parse, print, discover, resolve with the neighbouring packages, encode, rendered diagnostics), the two-position document family of C17 and multi-fault documents (several faults of one class in one document). Each input is processed twice per process (fresh hash maps) in 8 (quick) / 32 (thorough) worker processes whose std hash seed is an explicit input; encoded bytes in both dependency modes, printed text, rendered diagnostics, imports() listings and clone-vs-original encodings must be identical over all executions.",
+         "The input/history dimension is exhaustive at the stated bounds; the hash-seed dimension is a deterministic, replayable enumeration of seeds, not an order-coverage argument (reported exhaustive=false). std HashMap keys come from getrandom (shimmed; effectiveness asserted by a probe each run); hashbrown maps inside wasmparser are assumed not to influence output.",
+         "DESIGN.md §5 C16, §4 E8"),
+ "C17": ("mc-sem", "exploration",
+         "exhaustive enumeration of syntactic positions x packages (singles, ordered pairs, triples) with a generic AST-walk reference set and a differential resolve",
+         "A foreign package reference is placed at each of 17 syntactic positions (targets clause; import path; use paths in interface, world, inline interfaces of import statements / world imports / world exports; world import/export paths; include; new in let, named and string-named arguments, parentheses, under a postfix chain, in export, doubly nested) with and without version, singly and in all ordered pairs (thorough: all triples and the same package at two versions), plus own-package references and self-instantiation at every position. packages(doc) must contain every (name, version) object found by a generic walk over the serialised AST, never the own package; self-instantiation must be rejected; resolving with exactly the discovered packages must give the same outcome and the same encoded bytes (both modes) as resolving with the whole library.",
+         "The reference set comes from the parser's own serialised AST (independent of the visitor, not of the parser). Supersets are represented by the whole library.",
+         "DESIGN.md §5 C17"),
  "C08": ("mc-graph", "exploration",
          "exhaustive enumeration of generated WIT worlds built into real components; decoded world vs the reference validator's type tables via two independent canonical printers; wrapper-component subtyping for re-encoded dependency types",
          "Every world of every package of the bounded WIT enumeration (all type declarations x function shapes, dependent declarations, `use` chains/diamonds/renames/derived types, world-level use/types/include-with; ~500 components quick, ~1500 thorough) is built into a real component, loaded with Package::from_bytes, and compared with wasmparser's view: import/export names in order, per-item canonical type (kinds, parameter names and order, results, async, value types, resource identity and aliasing through one resource numbering per world), instance type = exports, used-type provenance against type identity in the validator, and - with define_components=false - the original component must be a subtype of the written `unlocked-dep` component type inside one wrapper. The 170-item hand-shaped type universe of C07 (every import kind incl. core modules) and the LibHand components are compared the same way.",
@@ -98,6 +108,8 @@ def main():
              "kind_free_text": "explicit-state BFS / exhaustive enumeration over the real wac-graph and wac-types code with reference models"},
             {"name": "mc-lang", "path": "harness/mc-lang", "serves_properties": [p for p in props if p in CHECKS and CHECKS[p][0] == "mc-lang"],
              "kind_free_text": "grammar-derivation enumeration, reference recogniser/evaluator, fault enumeration over the real parser/resolver"},
+            {"name": "mc-sem", "path": "harness/mc-sem", "serves_properties": [p for p in props if p in CHECKS and CHECKS[p][0] == "mc-sem"],
+             "kind_free_text": "document-level enumeration: package discovery, reproducibility under enumerated hash seeds, WAC evaluator, WIT differential, targets"},
             {"name": "mc-env", "path": "harness/mc-env", "serves_properties": [p for p in props if p in CHECKS and CHECKS[p][0] == "mc-env"],
              "kind_free_text": "environment enumeration: file-system layouts, CLI flag vectors, download completion orders"},
         ],
